@@ -204,6 +204,40 @@ class Crate:
             i += 1
         raise ExtractionError(f'{kw} `{module}::{name}` not found in the expanded crate')
 
+    def find_const_anywhere(self, name):
+        """[(module path, item tokens)] of every `const <name>` in the crate (rule D4, constants imported with `use`)"""
+        out = []
+        toks = self.toks
+        depth_mods = []
+        i, n = 0, len(toks)
+        stack = []      # (module name, brace depth at which it closes)
+        depth = 0
+        while i < n:
+            t = toks[i]
+            if t.kind == 'ident' and t.text == 'mod' and i + 2 < n and toks[i + 1].kind == 'ident' and toks[i + 2].text == '{':
+                stack.append((toks[i + 1].text, depth))
+                depth += 1
+                i += 3
+                continue
+            if t.kind == 'punct' and t.text == '{':
+                depth += 1
+            elif t.kind == 'punct' and t.text == '}':
+                depth -= 1
+                if stack and stack[-1][1] == depth:
+                    stack.pop()
+            elif t.kind == 'ident' and t.text == 'const' and i + 2 < n and toks[i + 1].kind == 'ident' and toks[i + 1].text == name and toks[i + 2].text == ':':
+                # module-level constant only (brace depth == number of enclosing modules)
+                if depth == len(stack):
+                    j = i
+                    while j > 0 and toks[j - 1].kind in ('ident',) and toks[j - 1].text in ('pub', 'crate') or (j > 0 and toks[j - 1].text in ('(', ')')):
+                        j -= 1
+                    k = i
+                    while k < n and toks[k].text != ';':
+                        k += 1
+                    out.append(('::'.join(m for m, _ in stack), toks[j:k + 1]))
+            i += 1
+        return out
+
     def has_impl(self, module, trait_re, ty):
         lo, hi = self._module_range(module)
         txt = join(self.toks[lo:hi])
